@@ -48,7 +48,33 @@ fn streaming(drv: &mut DecDriver, enc: &'static Encoding, mode: BomMode, repl: b
     Ok((out.out8, out.had_errors, out.final_enc, saw_malformed))
 }
 
-pub fn check_decode(enc: &'static Encoding, bytes: &[u8], drv: &mut DecDriver, st: Option<&mut Stats>) -> Option<(String, String)> {
+thread_local! {
+    static SHIFT_BUF: std::cell::RefCell<Vec<u8>> = const { std::cell::RefCell::new(Vec::new()) };
+}
+
+pub fn check_decode(enc: &'static Encoding, bytes_in: &[u8], drv: &mut DecDriver, st: Option<&mut Stats>) -> Option<(String, String)> {
+    // the argument is presented at a start address that varies with its contents (0..=15 bytes after
+    // a 16-byte boundary): the prefix scans of the one-shot methods work a word or a vector at a time
+    SHIFT_BUF.with(|b| {
+        let mut b = b.borrow_mut();
+        let shift = (fw::fnv(&bytes_in[..bytes_in.len().min(64)]) % 16) as usize;
+        let need = bytes_in.len() + 32;
+        if b.len() < need {
+            b.resize(need, 0);
+        }
+        let base = (16 - (b.as_ptr() as usize & 15)) & 15;
+        let off = base + shift;
+        b[off..off + bytes_in.len()].copy_from_slice(bytes_in);
+        let r = check_decode_at(enc, &b[off..off + bytes_in.len()], drv, st);
+        if b.len() > (1 << 20) {
+            // do not keep multi-megabyte scratch buffers alive per thread
+            *b = Vec::new();
+        }
+        r
+    })
+}
+
+fn check_decode_at(enc: &'static Encoding, bytes: &[u8], drv: &mut DecDriver, st: Option<&mut Stats>) -> Option<(String, String)> {
     let r = {
         let d = crate::guard::Desc { what: "Encoding::decode* (one-shot)", encoding: enc.name(), data: bytes.as_ptr(), len: bytes.len() };
         let _g = crate::guard::enter(&d);
@@ -191,7 +217,19 @@ fn compare_decode(enc: &'static Encoding, bytes: &[u8], drv: &mut DecDriver, one
     None
 }
 
-pub fn check_encode(enc: &'static Encoding, text: &str, drv: &mut EncDriver) -> Option<String> {
+pub fn check_encode(enc: &'static Encoding, text_in: &str, drv: &mut EncDriver) -> Option<String> {
+    // as for decode: the argument starts 0..=15 bytes after a 16-byte boundary, depending on its contents
+    let shift = (fw::fnv(&text_in.as_bytes()[..text_in.len().min(64)]) % 16) as usize;
+    let mut holder: Vec<u8> = vec![b' '; text_in.len() + 32];
+    let base = (16 - (holder.as_ptr() as usize & 15)) & 15;
+    let off = base + shift;
+    holder[off..off + text_in.len()].copy_from_slice(text_in.as_bytes());
+    // SAFETY: a byte-for-byte copy of a str
+    let text: &str = unsafe { std::str::from_utf8_unchecked(&holder[off..off + text_in.len()]) };
+    check_encode_at(enc, text, drv)
+}
+
+fn check_encode_at(enc: &'static Encoding, text: &str, drv: &mut EncDriver) -> Option<String> {
     let d = crate::guard::Desc { what: "Encoding::encode (one-shot), input is the text as UTF-8", encoding: enc.name(), data: text.as_ptr(), len: text.len() };
     let _g = crate::guard::enter(&d);
     let r = fw::catch(|| {
